@@ -58,6 +58,19 @@ CHECKS = {
              "both compilers with narrowing treated alike.",
         design_ref="3.13", technique="clang-query AST shape rule + static_assert witness programs + DAG equality of LLVM IR against raw-operator reference",
         note=TRUST_W + "; " + TRUST_I, engine="S+W+I"),
+    "C20": dict(
+        category="exploration",
+        text="Structural necessary conditions for 'single file == header tree' over every non-test header (include guard, header "
+             "set == exported CMake lists, project includes in the exact form the generator recognises / unconditional / "
+             "resolvable / acyclic, no macro definitions or position-dependent preprocessor features, fwd header first and every "
+             "forward-declared record defined (clang-query), every conditional block in a reviewed table); every header compiled "
+             "alone, twice, and all together in seeded random orders under each configuration; the generator is run as a build step "
+             "for seeded unit/constant selections x io/noio and its output compiled with an empty include path, included twice, and "
+             "in two TUs linked at IR level; an API-surface TU lowered against the single file and against the tree, and under "
+             "C++14/17/20, must give identical normalised IR DAGs per function.  Bounded by the seeded selections and the "
+             "hand-written API surface; g++/clang run-time equality is decided only as equal accept/reject.",
+        design_ref="3.20", technique="tree / preprocessor / include-graph / clang-query rules + compile matrix + IR DAG identity between packagings and standards",
+        note=TRUST_W + "; tools/bin/make-single-file run as a build step; " + TRUST_I, engine="S+W+I"),
     "C19": dict(
         category="proof",
         text="(I) for 10 reps x sampled library and generated units, every comparison with ZERO (both orders) and q+-ZERO / "
